@@ -96,7 +96,17 @@ func producesResponse(i ssa.Instruction, w ssa.Value) (status int64, ok bool) {
 		return 0, false
 	}
 	same := func(v ssa.Value) bool {
-		rs := Roots(v)
+		// roots that are parameters of other functions come from other call sites of a
+		// shared helper and cannot flow here
+		var rs []ssa.Value
+		for _, r := range Roots(v) {
+			if prm, isP := r.(*ssa.Parameter); isP {
+				if wp, isWP := w.(*ssa.Parameter); isWP && prm.Parent() != wp.Parent() {
+					continue
+				}
+			}
+			rs = append(rs, r)
+		}
 		return len(rs) == 1 && rs[0] == w
 	}
 	// an answer written by a new helper, e.g. writeError(w, msg, code): the helper must
